@@ -3,6 +3,7 @@ import AquaVerif.Proofs.RunTotalCatalogue
 import AquaVerif.Proofs.RunTotal
 import AquaVerif.Proofs.CropCalendar
 import AquaVerif.Proofs.PrepareGdd
+import AquaVerif.Proofs.PrepareGddTotal
 import AquaVerif.Proofs.CropFull
 import AquaVerif.Proofs.Clock
 import AquaVerif.Proofs.ClockCalendar
@@ -302,6 +303,30 @@ theorem switchgdd_conversion_succeeds_iff (toInt : α → Int) (cropType : Nat) 
       hasCol = true ∧ (∀ r ∈ rows, r.1 ≠ none) ∧
       (∀ k, some k ∈ rows.map (·.1) → StagesInRange toInt cropType s (seasonLen rows k)) :=
   prepareGdd_ok_iff toInt cropType hasCol sumFun s old rows
+
+/-- **`SwitchGDD = 1`, whole initialisation branch**: `compute_crop_calendar` (Mode 1, SwitchGDD) returns exactly
+when `GDDmethod ∈ {1,2,3}`, the `season` column exists, no row of the window is unlabelled and every calendar-day
+position handed to `prepare_gdd` (`switchStagesIn`: EmergenceCD, Canopy10PctCD, MaxRootingCD, MaxCanopyCD,
+CanopyDevEndCD, SenescenceCD, MaturityCD, HIstartCD, HIendCD, and FloweringEndCD for CropType 3) is a valid
+position in every season of the original window; the calendar-day part (`calendarInitCD`) never fails. -/
+theorem switchgdd_initialisation_succeeds_iff (F : Fn α) (toInt : α → Int) (c : CalCDIn α) (gddMethod : Nat)
+    (tbase tupp : α) (hasCol : Bool) (sumFun : Nat) (oldYF oldFD : α) (rows : List (Option Nat × α × α)) :
+    (∃ r, calendarInitCDSwitch F toInt c gddMethod tbase tupp hasCol sumFun oldYF oldFD rows = .ok r) ↔
+      (gddMethod = 1 ∨ gddMethod = 2 ∨ gddMethod = 3) ∧ hasCol = true ∧ (∀ r ∈ rows, r.1 ≠ none) ∧
+      (∀ k, some k ∈ rows.map (·.1) →
+        StagesInRange toInt c.cropType (switchStagesIn F c) (seasonLenT rows k)) :=
+  calendarInitCDSwitch_ok_iff F toInt c gddMethod tbase tupp hasCol sumFun oldYF oldFD rows
+
+/-- … and when it raises, it is `UnboundLocalError` (GDDmethod not 1/2/3), else `KeyError` (no `season`
+column), else `IndexError` (unlabelled row or a calendar-day position outside a season). -/
+theorem switchgdd_initialisation_errors {F : Fn α} {toInt : α → Int} {c : CalCDIn α} {gddMethod : Nat}
+    {tbase tupp : α} {hasCol : Bool} {sumFun : Nat} {oldYF oldFD : α} {rows : List (Option Nat × α × α)}
+    {e : String}
+    (h : calendarInitCDSwitch F toInt c gddMethod tbase tupp hasCol sumFun oldYF oldFD rows = .error e) :
+    (e = "E:unbound" ∧ ¬ (gddMethod = 1 ∨ gddMethod = 2 ∨ gddMethod = 3)) ∨
+    (e = "E:key" ∧ (gddMethod = 1 ∨ gddMethod = 2 ∨ gddMethod = 3) ∧ hasCol = false) ∨
+    (e = "E:index" ∧ (gddMethod = 1 ∨ gddMethod = 2 ∨ gddMethod = 3) ∧ hasCol = true) :=
+  calendarInitCDSwitch_error h
 
 /-- **Every run of a catalogue configuration terminates without raising** (over `ℝ`): `CatCfg`
 (crops from the generated table, profile and initial water content built by the model of the
